@@ -85,8 +85,10 @@ class _Lock:
     """Process-wide re-entrant file lock: concurrent checks share one object cache."""
     depth = 0
     f = None
+    tl = __import__("threading").RLock()      # threads of one process build one at a time
 
     def __enter__(self):
+        _Lock.tl.acquire()
         if _Lock.depth == 0:
             os.makedirs(BUILD, exist_ok=True)
             _Lock.f = open(os.path.join(BUILD, ".lock"), "w")
@@ -98,6 +100,7 @@ class _Lock:
         if _Lock.depth == 0:
             fcntl.flock(_Lock.f, fcntl.LOCK_UN)
             _Lock.f.close()
+        _Lock.tl.release()
 
 
 def compile_obj(src, variant="asan", extra=()):
